@@ -110,9 +110,9 @@ func genC06(t *rapid.T) *c06Scenario {
 
 type c06Counters struct {
 	register, connected, disconnected atomic.Int32
-	regWhileDown, connWhileDown      atomic.Int32 // Connected()==false seen inside REGISTER / CONNECTED handlers
-	discWhileUp                      atomic.Int32 // Connected()==true seen inside a DISCONNECTED handler
-	regRunning                       atomic.Int32
+	regWhileDown, connWhileDown       atomic.Int32 // Connected()==false seen inside REGISTER / CONNECTED handlers
+	discWhileUp                       atomic.Int32 // Connected()==true seen inside a DISCONNECTED handler
+	regRunning                        atomic.Int32
 }
 
 func runC06(sc *c06Scenario) *Violation {
